@@ -25,6 +25,9 @@ Parameter::Parameter(const std::string& name, double value, std::shared_ptr<Cons
   name_(name), value_(0), precision_(0), constraint_(constraint), listeners_()
 {
   setValue(value);
+  // setValue() skips the check when the value equals the initial one (0):
+  if (constraint_ && !constraint_->isCorrect(value_))
+    throw ConstraintException("Parameter::Parameter", this, value_);
   setPrecision(precision);
 }
 
